@@ -70,10 +70,17 @@ def coq_call(s):
     if f[0] == "u":
         return "(CUnregister %s %s)" % (blist(f[1]), blist(f[2]))
     if f[0] == "r":
-        _, ty, sub, full, host, addrs, port, txt, probe = f
-        return "(CRegister (mkSvc %s %s %s %s %s %s %s %s []))" % (
+        _, ty, sub, full, host, addrs, port, txt, probe, auto = f
+        return "(CRegister (mkSvc %s %s %s %s %s %s %s %s [] %s))" % (
             blist(ty), "None" if sub == "~" else "(Some %s)" % blist(sub), blist(full), blist(host),
-            coq_list([blist(a) for a in items("+", addrs)]), port, blist(txt), "true" if probe == "1" else "false")
+            coq_list([blist(a) for a in items("+", addrs)]), port, blist(txt), "true" if probe == "1" else "false",
+            "true" if auto == "1" else "false")
+    if f[0] == "i":
+        ks = []
+        for k in items("+", f[2]):
+            ks.append("KAll" if k == "A" else "KV4" if k == "4" else "KV6" if k == "6"
+                      else "(KName %s)" % blist(k[1:]) if k.startswith("N") else "KUnsupported")
+        return "(CIfSel %s %s)" % ("true" if f[1] == "1" else "false", coq_list(ks))
     raise ValueError(s)
 
 
@@ -94,10 +101,10 @@ def to_coq(name, h):
                     ["(mkIA %s %s)" % (blist(a.split("_")[0]), blist(a.split("_")[1])) for a in items("+", addrs)])))
             ifs = coq_list(lst)
         elif t.startswith("I:"):
-            _, d, now, wake, jit, calls, dgs, mif = t.split(":")
-            its.append("(mkIter %s %s %s %s %s)" % (now, coq_list([coq_dgram(x) for x in items(";", dgs)]),
-                                                    coq_list([coq_call(x) for x in items(";", calls)]),
-                                                    coq_list(items(".", jit)), "None" if mif == "n" else "(Some %s)" % mif))
+            _, d, now, wake, jit, calls, dgs = t.split(":")
+            its.append("(mkIter %s %s %s %s)" % (now, coq_list([coq_dgram(x) for x in items(";", dgs)]),
+                                                 coq_list([coq_call(x) for x in items(";", calls)]),
+                                                 coq_list(items(".", jit))))
     out = ["(* %s : %s *)" % (name, h.get("doc", ""))]
     out.append("Definition %s_ifs : list intf := %s." % (name, ifs))
     out.append("Definition %s_its : list iter :=\n  [ %s ]." % (name, ";\n    ".join(its)))
@@ -186,6 +193,22 @@ WITNESSES = [
                             {"t": T0 + 472, "d": 0, "dgrams": [{"if": 2, "v4": True, "src": "192.168.1.98:5353", "hex":
                                 "00008400000000010000000003682d32056c6f63616c0000018001000000780004c0a801c8"}]},
                             {"run_until": T0 + 1972}], seed=10)),
+    ("w_toggle", hist("an addr_auto service is probing (two probes sent) when its interface is disabled; it is enabled "
+                      "again 600 ms later: three new probes on the new incarnation of the interface, then two "
+                      "announcements", reglib.IFCFGS["dual"],
+                      [{"t": T0, "d": 0, "calls": [{"op": "monitor", "ch": "m"}, reg(ips="auto")]}, {"run_until": T0 + 400},
+                       {"t": T0 + 400, "d": 0, "calls": [{"op": "disable_interface", "kinds": [{"k": "Name", "v": "eth0"}]}]},
+                       {"run_until": T0 + 1000},
+                       {"t": T0 + 1000, "d": 0, "calls": [{"op": "enable_interface", "kinds": [{"k": "Name", "v": "eth0"}]}]},
+                       {"run_until": T0 + 4000}])),
+    ("w_prefix_lost", hist("a competing probe whose authority list extends the daemon's own (TXT, SRV, SRV'): equal on "
+                           "the common prefix, the shorter list loses; the daemon defers by one second", V4,
+                           [{"t": T0, "d": 0, "calls": [{"op": "monitor", "ch": "m"}, reg()]}, {"run_until": T0 + 300},
+                            {"t": T0 + 300, "d": 0, "dgrams": [reglib.q_dgram(None, 2, True, [([b"inst", b"_t", b"_tcp", b"local"], 255)],
+                                authorities=[([b"inst", b"_t", b"_tcp", b"local"], 16, 0x8001, 4500, dnsgen.rd_bytes(b"\x00")),
+                                             ([b"inst", b"_t", b"_tcp", b"local"], 33, 0x8001, 120, dnsgen.rd_srv(0, 0, 80, [b"h", b"local"])),
+                                             ([b"inst", b"_t", b"_tcp", b"local"], 33, 0x8001, 120, dnsgen.rd_srv(0, 0, 81, [b"h", b"local"]))])]},
+                            {"run_until": T0 + 4000}])),
     ("w_unregister", hist("register, both announcements, unregister, repeat, then a PTR question: no answer", V4,
                           [{"t": T0, "d": 0, "calls": [{"op": "monitor", "ch": "m"}, reg()]}, {"run_until": T0 + 2500},
                            {"t": T0 + 2500, "d": 0, "calls": [{"op": "unregister", "name": "INST._t._tcp.local.", "ch": "u1"}]},
